@@ -397,7 +397,9 @@ impl BlockManager {
         let mut state = self.inner.state.write().unwrap();
         state.reclaiming_blocks.remove(&block.id());
         self.inner.metrics.storage_block_engine_block_reclaiming.decrease(1);
-        if let Some(waiter) = state.clean_block_waiters.pop() {
+        // Serve the writers in the order they asked: the windows of a batch must be written (and indexed) in order.
+        if !state.clean_block_waiters.is_empty() {
+            let waiter = state.clean_block_waiters.remove(0);
             self.inner.metrics.storage_block_engine_block_writing.increase(1);
             verif_event!(state, "reclaimed-handover", block.id());
             let _ = waiter.send(block);
